@@ -228,6 +228,15 @@ func (w *walker) value(t reflect.Type, tmpl reflect.Value) bool {
 		return w.fail("unsupported", "too-many-steps")
 	}
 	if reflect.PointerTo(t).Implements(tUnmarshaler) {
+		if t.Name() == "H256" && t.Kind() == reflect.String { // internal/primitives/core/hash.H256: 32 bytes on the wire
+			for i := 0; i < 32; i++ {
+				if _, ok := w.take(1, "fixed-width-int"); !ok {
+					return false
+				}
+				w.pos++
+			}
+			return true
+		}
 		return w.fail("unsupported", "custom-unmarshaler")
 	}
 	if t.Kind() != reflect.Interface && reflect.PointerTo(t).Implements(tVDT) {
@@ -402,4 +411,3 @@ func compactsOf(enc []byte, t reflect.Type, tmpl reflect.Value) []compactPos {
 	}
 	return out
 }
-
